@@ -267,13 +267,15 @@ def app_rows(V, tier, seed):
         today = datetime.date(y + 1, 3, 1)
         kind = rng.choice(["usd_norate", "usd_norate", "usd_comm_norate", "usd_explicit", "cad_rate_1", "cad_rate_bad", "eur_norate", "eur_rate",
                            "usd_td_vs_sd", "usd_jan1", "fx_trade_cad_comm_norate", "fx_trade_cad_comm_rate1", "fx_trade_cad_comm_bad",
-                           "fx_trade_eur_comm_norate", "fx_trade_eur_comm_rate", "usd_trade_usd_comm_own_rate"])
+                           "fx_trade_eur_comm_norate", "fx_trade_eur_comm_rate", "usd_trade_usd_comm_own_rate",
+                           "usd_norate_then_eur_norate_same_day", "usd_norate_with_gbp_comm_norate"])
         td = datetime.date(y, rng.randint(1, 12), rng.randint(1, 28))
         if kind == "usd_jan1":
             td = datetime.date(y, 1, rng.choice([1, 2, 3]))
         sd = td + datetime.timedelta(days=rng.choice([0, 2, 3, 5]))
         row = mkrow("FOO", sd.isoformat(), "Buy", "", td=td.isoformat(), shares=str(rng.randint(1, 50)), aps=gen.rand_dec(rng, 1, 200, 2))
         exp = {"kind": kind}
+        extra_rows = []
         if kind in ("usd_norate", "usd_td_vs_sd", "usd_jan1"):
             row["cur"] = "USD"
             exp["rate_from"] = td
@@ -296,6 +298,16 @@ def app_rows(V, tier, seed):
             exp["error"] = True
         elif kind == "eur_norate":
             row["cur"] = "EUR"
+            exp["error"] = True
+        elif kind == "usd_norate_then_eur_norate_same_day":
+            # a USD row whose rate is looked up, then another currency without a rate on the same trade date
+            row["cur"] = "USD"
+            extra_rows = [dict(mkrow("BAR", sd.isoformat(), "Buy", "", td=td.isoformat(), shares="3", aps="10.00"), cur=rng.choice(["EUR", "GBP"]))]
+            exp["error"] = True
+        elif kind == "usd_norate_with_gbp_comm_norate":
+            row["cur"] = "USD"
+            row["comm"] = gen.rand_dec(rng, 1, 20, 2)
+            row["ccur"] = "GBP"
             exp["error"] = True
         elif kind.startswith("fx_trade_") or kind == "usd_trade_usd_comm_own_rate":
             # the commission has its own currency column: the same three rules apply to it, independently of the trade's currency
@@ -326,7 +338,7 @@ def app_rows(V, tier, seed):
             row["fx"] = gen.rand_dec(rng, 1, 2, 4)
             exp["rate"] = Fraction(row["fx"])
         cid = "app%05d" % i
-        text = gen.rows_to_csv([row], gen.used_cols([row]))
+        text = gen.rows_to_csv([row] + extra_rows, gen.used_cols([row] + extra_rows))
         cases.append({"id": cid, "files": [["in.csv", text]], "init": [], "full": True, "today": today.isoformat(),
                       "remote": remote_spec(cal, overlap), "want": ["model"]})
         plan[cid] = (row, exp, cal, today, text)
